@@ -81,4 +81,14 @@ def runChain (a : Acc) : List (Nat × Int) → Acc
   | [] => a
   | (o, s) :: rest => runChain (next a o s) rest
 
+/-- Minimum base fee of a block (core/headerchain.go CalcBaseFee): the protocol's minimum fee in qits converted to Quai
+at the prime terminus' rate (`quaiR` / `qiR` are the two reward values of that conversion), per unit of transaction gas. -/
+def baseFee (quaiR qiR minQits txGas : Nat) : Nat := quaiR * minQits / qiR / txGas
+
+/-- Moving average of the conversion flow (ComputeConversionFlowAmount): window `w`, never below `minFlow`, never
+more than twice the previous amount. -/
+def flowAmount (prev cur w minFlow : Nat) : Nat :=
+  let n := (prev * (w - 1) + cur) / w
+  if n < minFlow then minFlow else if n > 2 * prev then 2 * prev else n
+
 end QuaiVerif.HeaderRules
